@@ -241,10 +241,13 @@ def main(prop: str, module: str, worker: Callable[[Ctx], None], *, level: str = 
             unlisted.append(v)
     for key, vs in listed.items():
         print(f"KNOWN-FINDING: property={prop} {key}: {known[key]['what']} ({len(vs)} witnesses this run, e.g. {json.dumps(vs[0]['witness'], default=str)[:300]})")
+    if unlisted:
+        from collections import Counter
+        print("unlisted violation keys:", json.dumps(Counter(v["key"] for v in unlisted).most_common(40)))
     replay_paths = []
     seen_keys = set()
     for n, v in enumerate(unlisted):
-        if v["key"] in seen_keys and len(replay_paths) >= 5:
+        if v["key"] in seen_keys:
             continue
         seen_keys.add(v["key"])
         p = write_replay(prop, n, v, seed, a.tier)
